@@ -16,6 +16,7 @@ ARR = z3.DeclareSort("Arr")
 I = z3.IntSort()
 LENF = z3.Function("LEN", ARR, I, I)
 TAKE = z3.Function("TAKE", ARR, ARR, I, ARR)
+TAKE_MODE = z3.Function("TAKE_MODE", ARR, ARR, I, I, ARR)
 SLICE = z3.Function("SLICE", ARR, I, I, ARR)
 NONE_IX = z3.Int("NONE_IX")
 DELETE_A = z3.Function("DELETE_A", ARR, ARR, I, ARR)
@@ -230,6 +231,17 @@ def _axis(a, axis):
 def a_take(a, indices, axis=None, **kw):
     used("numpy.take(a, idx, axis) / a[idx]: result[.., k, ..] = a[.., idx[k], ..] (opaque TAKE; shape: axis length := len(idx))")
     ax = _axis(a, axis)
+    mode = kw.pop("mode", "raise")
+    if kw.get("out") is not None or set(kw) - {"out"}:
+        raise Unsupported("numpy.take with options %s" % sorted(kw))
+    if mode not in (None, "raise"):
+        # 'clip' / 'wrap' treat negative and out-of-range indices differently from plain indexing: a different operator
+        if not isinstance(indices, OArr) or indices.ndim != 1:
+            raise Unsupported("take(mode=%r) with non-vector indices" % (mode,))
+        used("numpy.take(mode='%s'): opaque TAKE_MODE, NOT the indexing operator (negative indices are clipped / wrapped)" % mode)
+        shp = list(a._shape)
+        shp[ax] = indices._shape[0]
+        return OArr(TAKE_MODE(a._term, indices._term, ax, {"clip": 1, "wrap": 2}.get(mode, 3)), shp, a._dt)
     if not isinstance(indices, OArr):
         raise Unsupported("take with non-symbolic indices")
     if indices.ndim != 1:
@@ -312,6 +324,8 @@ def a_append(a, values, axis=None):
 
 
 def a_concatenate(arrs, axis=0, **kw):
+    if any(v is not None for k, v in kw.items() if k in ("out", "dtype")) or set(kw) - {"out", "dtype", "casting"}:
+        raise Unsupported("numpy.concatenate with options %s" % sorted(kw))
     used("numpy.concatenate/append along axis: left fold of opaque CONCAT2; axis length is the sum")
     arrs = list(arrs)
     if not arrs:
@@ -351,8 +365,8 @@ def a_lexsort(keys, axis=-1):
 
 def a_unique(a, return_index=False, return_inverse=False, return_counts=False, axis=None, **kw):
     used("numpy.unique(a, return_index, return_counts): opaque UNIQ_VAL/UNIQ_IDX/UNIQ_CNT of length NUNIQ(a)")
-    if return_inverse:
-        raise Unsupported("unique(return_inverse)")
+    if return_inverse or kw:
+        raise Unsupported("unique(return_inverse / %s)" % sorted(kw))
     g = SymInt(NUNIQ(a._term))
     cur().assume(z3.And(NUNIQ(a._term) >= 0, NUNIQ(a._term) <= _t(a._shape[0])))
     out = [OArr(UNIQ_VAL(a._term), (g,), a._dt)]
@@ -364,6 +378,8 @@ def a_unique(a, return_index=False, return_inverse=False, return_counts=False, a
 
 
 def a_copy(a, **kw):
+    if set(kw) - {"order", "subok"}:
+        raise Unsupported("numpy.copy with options %s" % sorted(kw))
     return a.copy()
 
 
